@@ -156,18 +156,96 @@ fn check_i(sa: bool, a: &[u64], sb: bool, b: &[u64]) -> Verdict {
         .class_if(ra.mag == rb.mag && la > 0, "equal_magnitudes"))
 }
 
+/// scalar forms: big +- primitive and primitive +- big, every type that can hold the scalar
+fn check_scalar(sa: bool, a: &[u64], s: i128) -> Verdict {
+    use crate::refint::RefInt;
+    let x = bi(sa, a);
+    let u = bu(a);
+    let ra = ri(sa, a);
+    let rs = RefInt::from_i128(s);
+    let (sum, d1, d2) = (ra.add(&rs), ra.sub(&rs), rs.sub(&ra));
+    macro_rules! iforms {
+        ($($T:ty),*) => {$(
+            if let Ok(v) = <$T>::try_from(s) {
+                let tn = stringify!($T);
+                ctx(must_return("a + s", || &x + v).and_then(|r| eq_bi(&r, &sum)), &format!("&BigInt + {}", tn))?;
+                ctx(must_return("a + s", || x.clone() + v).and_then(|r| eq_bi(&r, &sum)), &format!("BigInt + {}", tn))?;
+                ctx(must_return("s + a", || v + &x).and_then(|r| eq_bi(&r, &sum)), &format!("{} + &BigInt", tn))?;
+                ctx(must_return("s + a", || v + x.clone()).and_then(|r| eq_bi(&r, &sum)), &format!("{} + BigInt", tn))?;
+                ctx(must_return("a += s", || { let mut t = x.clone(); t += v; t }).and_then(|r| eq_bi(&r, &sum)), &format!("BigInt += {}", tn))?;
+                ctx(must_return("a - s", || &x - v).and_then(|r| eq_bi(&r, &d1)), &format!("&BigInt - {}", tn))?;
+                ctx(must_return("a - s", || x.clone() - v).and_then(|r| eq_bi(&r, &d1)), &format!("BigInt - {}", tn))?;
+                ctx(must_return("s - a", || v - &x).and_then(|r| eq_bi(&r, &d2)), &format!("{} - &BigInt", tn))?;
+                ctx(must_return("s - a", || v - x.clone()).and_then(|r| eq_bi(&r, &d2)), &format!("{} - BigInt", tn))?;
+                ctx(must_return("a -= s", || { let mut t = x.clone(); t -= v; t }).and_then(|r| eq_bi(&r, &d1)), &format!("BigInt -= {}", tn))?;
+            }
+        )*};
+    }
+    iforms!(i8, i16, i32, i64, isize, i128, u8, u16, u32, u64, usize, u128);
+    let mut underflow = false;
+    if s >= 0 {
+        let usum = ra.mag.add(&rs.mag);
+        let ord = ra.mag.cmp(&rs.mag);
+        underflow = ord != Ordering::Equal;
+        macro_rules! uforms {
+            ($($T:ty),*) => {$(
+                if let Ok(v) = <$T>::try_from(s) {
+                    let tn = stringify!($T);
+                    ctx(must_return("a + s", || &u + v).and_then(|r| eq_bu(&r, &usum)), &format!("&BigUint + {}", tn))?;
+                    ctx(must_return("a + s", || u.clone() + v).and_then(|r| eq_bu(&r, &usum)), &format!("BigUint + {}", tn))?;
+                    ctx(must_return("s + a", || v + &u).and_then(|r| eq_bu(&r, &usum)), &format!("{} + &BigUint", tn))?;
+                    ctx(must_return("s + a", || v + u.clone()).and_then(|r| eq_bu(&r, &usum)), &format!("{} + BigUint", tn))?;
+                    ctx(must_return("a += s", || { let mut t = u.clone(); t += v; t }).and_then(|r| eq_bu(&r, &usum)), &format!("BigUint += {}", tn))?;
+                    if ord != Ordering::Less {
+                        let d = ra.mag.sub(&rs.mag);
+                        ctx(must_return("a - s", || &u - v).and_then(|r| eq_bu(&r, &d)), &format!("&BigUint - {}", tn))?;
+                        ctx(must_return("a - s", || u.clone() - v).and_then(|r| eq_bu(&r, &d)), &format!("BigUint - {}", tn))?;
+                        ctx(must_return("a -= s", || { let mut t = u.clone(); t -= v; t }).and_then(|r| eq_bu(&r, &d)), &format!("BigUint -= {}", tn))?;
+                    } else {
+                        ctx(must_panic("a - s", || &u - v), &format!("&BigUint - larger {}", tn))?;
+                        ctx(must_panic("a - s", || u.clone() - v), &format!("BigUint - larger {}", tn))?;
+                        ctx(must_panic("a -= s", || { let mut t = u.clone(); t -= v; t }), &format!("BigUint -= larger {}", tn))?;
+                    }
+                    if ord != Ordering::Greater {
+                        let d = rs.mag.sub(&ra.mag);
+                        ctx(must_return("s - a", || v - &u).and_then(|r| eq_bu(&r, &d)), &format!("{} - &BigUint", tn))?;
+                        ctx(must_return("s - a", || v - u.clone()).and_then(|r| eq_bu(&r, &d)), &format!("{} - BigUint", tn))?;
+                    } else {
+                        ctx(must_panic("s - a", || v - &u), &format!("{} - larger &BigUint", tn))?;
+                        ctx(must_panic("s - a", || v - u.clone()), &format!("{} - larger BigUint", tn))?;
+                    }
+                }
+            )*};
+        }
+        uforms!(u8, u16, u32, u64, usize, u128);
+    }
+    Ok(Info::new(!ra.is_zero() && s != 0 && (a.len() >= 2 || s.unsigned_abs() > u64::MAX as u128))
+        .class("scalar_forms")
+        .class_if(underflow, "biguint_underflow")
+        .class_if(s.unsigned_abs() > u64::MAX as u128, "scalar_two_digits")
+        .class_if(ra.is_zero(), "big_operand_zero"))
+}
+
 impl Property for C01 {
     fn id(&self) -> &'static str {
         "C01"
     }
     fn rule(&self) -> &'static str {
-        "Cases are operand pairs (BigUint: addsub.u a b; BigInt: addsub.i a b with all sign pairs) drawn from a mixture of special-digit operands, lengths on the 5-digit asm block grid (0..6, 5k-1, 5k, 5k+1), all-ones carry chains with one interrupting digit at a swept position, chains that die exactly at digit j, borrow ripples from B^k, nearly equal operands and a=b+delta; each case runs 7 add forms and 7 sub forms in both operand orders against RefInt (BigUint underflow must panic / checked_sub None). Non-trivial: both operands non-zero and (shorter operand >= 5 digits, so the asm block runs, or a carry/borrow crosses a digit boundary in the model)."
+        "Cases are operand pairs (BigUint: addsub.u a b; BigInt: addsub.i a b with all sign pairs) drawn from a mixture of special-digit operands, lengths on the 5-digit asm block grid (0..6, 5k-1, 5k, 5k+1), all-ones carry chains with one interrupting digit at a swept position, chains that die exactly at digit j, borrow ripples from B^k, nearly equal operands and a=b+delta; each case runs 7 add forms and 7 sub forms in both operand orders against RefInt (BigUint underflow must panic / checked_sub None); addsub.s runs big +- primitive and primitive +- big in val/ref and op-assign forms for every primitive type that can hold the scalar (incl. the |big| = |scalar| +- 2 underflow edge). Non-trivial: both operands non-zero and (shorter operand >= 5 digits, so the asm block runs, or a carry/borrow crosses a digit boundary in the model)."
     }
     fn strategy(&self, tier: Tier) -> BoxedStrategy<Case> {
         let ml = 40;
         let small_u = gen::addsub_pair(ml).prop_map(|(a, b)| Case::new("addsub.u", vec![Arg::N(a), Arg::N(b)]));
         let small_i = (any::<bool>(), any::<bool>(), gen::addsub_pair(ml))
             .prop_map(|(sa, sb, (a, b))| Case::new("addsub.i", vec![Arg::Z(sa, a), Arg::Z(sb, b)]));
+        let scal = (any::<bool>(), prop_oneof![50 => gen::nat(3), 20 => gen::nat(0), 30 => (0usize..=3).prop_map(|k| vec![u64::MAX; k])], gen::scalar_i128())
+            .prop_map(|(sa, a, s)| Case::new("addsub.s", vec![Arg::Z(sa, a), Arg::I(s)]));
+        // |big| = |scalar| + d: the underflow edge of the scalar forms
+        let scal_edge = (any::<bool>(), gen::scalar_i128(), -2i128..=2).prop_map(|(sa, s, d)| {
+            let m = crate::refint::RefInt::from_u128(s.unsigned_abs()).add(&crate::refint::RefInt::from_i128(d));
+            Case::new("addsub.s", vec![Arg::Z(sa, if m.neg { vec![] } else { m.mag.to_u64_digits() }), Arg::I(s)])
+        });
+        let small_u = prop_oneof![85 => small_u, 10 => scal, 5 => scal_edge];
         match tier {
             Tier::Quick => prop_oneof![50 => small_u, 50 => small_i].boxed(),
             Tier::Thorough => {
@@ -185,6 +263,10 @@ impl Property for C01 {
                 let (sa, a) = c.z(0);
                 let (sb, b) = c.z(1);
                 check_i(sa, a, sb, b)
+            }
+            "addsub.s" => {
+                let (sa, a) = c.z(0);
+                check_scalar(sa, a, c.i(1))
             }
             o => Err(format!("unknown op {}", o)),
         }
